@@ -4,7 +4,7 @@
    for e^{i angle}; nothing transcendental is used.  Solvers are universally quantified functions. *)
 From Coq Require Import ZArith List Bool Ring Field QArith Permutation.
 Require Import MV.Lib.Base MV.C18.Ops MV.C18.Gen MV.C18.Model.
-Require Import MV.C18.Proofs_Herm MV.C18.Proofs_Opt MV.C18.Proofs_Cstr MV.C18.Proofs_Index MV.C18.Proofs_Main MV.C18.Proofs_Gauge
+Require Import MV.C18.Proofs_Herm MV.C18.Proofs_Opt MV.C18.Proofs_Cstr MV.C18.Proofs_Index MV.C18.Proofs_Main MV.C18.Proofs_Range MV.C18.Proofs_Gauge
   MV.C18.Proofs_Quantum MV.C18.Examples.
 Open Scope Z_scope.
 
@@ -145,6 +145,43 @@ Theorem C18_harmonic_extension_instances :
         partitioned T M (part_free n fb) (part_fixed n fb)).
 Proof. exact harmonic_extension_instances. Qed.
 Print Assumptions C18_harmonic_extension_instances.
+
+(* FULL.  The face-based pipeline as it is (n_smooth = 0): operator, constraints and partition are the model's own (their
+   column indices are proved in range, so the partition splits them).  For EVERY solver whose answer satisfies the system:
+   the raw field extends the constraints, is harmonic at every free face, and - when some face is free - the result is its
+   element-wise normalisation. *)
+Theorem C18_harmonic_extension_faces :
+  forall (T : Type) (O : ops T), laws O ->
+  forall (solve : cmat T -> list Z -> (Z -> cx T) -> (Z -> cx T)) (smooth : (Z -> cx T) -> (Z -> cx T))
+         (order : nat) (D : option (list T)) (V : list (vec T)) (F : list face) (E : list edge) (FE : list Z),
+    let n := zlen F in let fb := fixed_face F E FE in
+    let L := lap_faces O order D V F E FE in let var0 := init_faces O order V F E FE in
+    let free := part_free n fb in let fixed := part_fixed n fb in
+    solves T O (optf_rhs O) L var0 free fixed (solve L free (opt_rhs_fn O (optf_rhs O) L fixed var0)) ->
+    let z := opt_first O solve (optf_rhs O) L var0 free fixed in
+    (forall j, memZ j free = false -> z j = var0 j) /\
+    (forall i, memZ i free = true -> mrow_dot O L i z = c0 O) /\
+    (isnil free = false -> forall i, ff_faces_fn T O solve smooth order 0 D V F E FE i = norm_elem O (z i)).
+Proof. exact harmonic_faces. Qed.
+Print Assumptions C18_harmonic_extension_faces.
+
+(* FULL.  The vertex-based pipeline as it is (n_smooth = 0), for faces whose corners are vertex indices in range. *)
+Theorem C18_harmonic_extension_vertices :
+  forall (T : Type) (O : ops T), laws O ->
+  forall (solve : cmat T -> list Z -> (Z -> cx T) -> (Z -> cx T)) (smooth : (Z -> cx T) -> (Z -> cx T))
+         (sn : bool) (order : nat) (cots : option (list (T * T * T))) (trs : list (Z * Z * cx T))
+         (Bv : list (vec T * vec T)) (V : list (vec T)) (F : list face) (E : list edge) (FE : list Z),
+    faces_in_range (zlen V) F ->
+    let n := zlen V in let fb := feature_vertex E FE in
+    let L := lap_vertices O order cots trs F in let var0 := init_vertices O sn order V E Bv (tr_lookup O trs) FE in
+    let free := part_free n fb in let fixed := part_fixed n fb in
+    solves T O (optv_rhs O) L var0 free fixed (solve L free (opt_rhs_fn O (optv_rhs O) L fixed var0)) ->
+    let z := opt_first O solve (optv_rhs O) L var0 free fixed in
+    (forall j, memZ j free = false -> z j = var0 j) /\
+    (forall i, memZ i free = true -> mrow_dot O L i z = c0 O) /\
+    (forall i, ff_vertices_fn T O solve smooth sn order 0 cots trs Bv V F E FE i = norm_elem O (z i)).
+Proof. exact harmonic_vertices. Qed.
+Print Assumptions C18_harmonic_extension_vertices.
 
 (* FULL (telescoping), last step under the named Gauss-Bonnet hypothesis (C07).  For every edge list with distinct end
    points in range and ANY edge rotations: the vertex angles of flag_singularities add up to the sum of the defects; the
